@@ -296,9 +296,13 @@ def run_case(case):
                 nb = int((rr[1] - rr[0]) / case["width"])
             if nb < 1:
                 return {"viol": [], "labels": labels + ["no-bins"], "nontrivial": False}
+            flags = [(True, True), (True, True), (False, True), (True, False), (False, False)][case["seed"] % 5]
+            if flags != (True, True):
+                kw.update(periodic=flags[0], opt=flags[1])
+                labels.append("rdf-flags:%s" % (flags,))
             r, g = md.compute_rdf(t, pairs, **kw)
             edges = np.linspace(rr[0], rr[1], nb + 1)
-            dist = md.compute_distances(t, pairs).astype(np.float64)
+            dist = md.compute_distances(t, pairs, periodic=flags[0]).astype(np.float64)
             vol = np.array([abs(np.linalg.det(gen.box_vectors(t.unitcell_lengths[f], t.unitcell_angles[f]))) for f in range(nf)])
             near = np.abs(dist[..., None] - edges).min(-1) < 1e-6
             cnt = np.histogram(dist[~near], bins=edges)[0].astype(np.float64)
